@@ -166,8 +166,21 @@ def gen_cases(r):
     kw = r.choice(["packet", "struct"])
 
     def inh(parent_fields, cons, label, expect, kw=kw):
-        add(base + ["%s V0 { %s, _payload_ }" % (kw, parent_fields), "%s V1 : V0 (%s) { }" % (kw, cons)],
-            expect, label + ":" + kw)
+        # the constrained field may be declared any number of levels up: 0..2 intermediate
+        # declarations (aliases, or levels constraining an unrelated field) sit between V0 and V1
+        n_mid = r.choice([0, 0, 1, 2])
+        decls = ["%s V0 { %s, zq: 8, _payload_ }" % (kw, parent_fields)]
+        par = "V0"
+        zq_used = False
+        for i in range(n_mid):
+            c = ""
+            if not zq_used and r.random() < 0.4:
+                c = " (zq = %d)" % r.randint(0, 255)
+                zq_used = True
+            decls.append("%s V0m%d : %s%s { _payload_ }" % (kw, i, par, c))
+            par = "V0m%d" % i
+        decls.append("%s V1 : %s (%s) { }" % (kw, par, cons))
+        add(base + decls, expect, "%s:%s:depth%d" % (label, kw, n_mid + 1))
 
     def grp(group_fields, cons, label, expect):
         ctx = pick_ctx(r, ["root", "child", "struct", "child_struct"])
@@ -189,6 +202,32 @@ def gen_cases(r):
         mk("a: 8, b: 8", "a = 1, a = 2", "constraint-same-id-twice", "E22")
     add(["packet V0 { a: 8, _payload_ }", "packet V1 : V0 (a = 1) { _payload_ }", "packet V2 : V1 (a = 1) { }"],
         "E22", "re-constraining-ancestor-field")
+    # the same rule at every distance: a chain of 3..5 levels, the field constrained at level i and
+    # again at level j > i, the levels in between constraining another field or nothing
+    for kw2 in ("packet", "struct"):
+        depth = r.randint(3, 5)
+        i = r.randint(1, depth - 2)
+        j = r.randint(i + 1, depth - 1)
+        chain = ["%s V0 { a: 8, b: 8, e: V8, _payload_ }" % kw2]
+        fld, val1, val2 = r.choice([("a", "1", "2"), ("a", "7", "7"), ("e", "T1", "T2"), ("e", "T2", "T2")])
+        b_used = False
+        for lv in range(1, depth):
+            if lv == i:
+                c = " (%s = %s)" % (fld, val1)
+            elif lv == j:
+                c = " (%s = %s)" % (fld, val2)
+            elif not b_used and r.random() < 0.5:
+                c = " (b = %d)" % r.randint(0, 255)
+                b_used = True
+            else:
+                c = ""
+            chain.append("%s V%d : V%d%s { %s }" % (kw2, lv, lv - 1, c, "_payload_" if lv < depth - 1 else ""))
+        add(base + chain, "E22", "re-constraining-ancestor-field:%s:levels%d-%d-of-%d" % (kw2, i, j, depth))
+        # control: the same chain with the second constraint moved to the other field
+        ctrl = [x.replace("(%s = %s)" % (fld, val2), "(b = 3)") if k == j and "(%s = %s)" % (fld, val2) in x else x
+                for k, x in enumerate(chain)]
+        if not b_used and val1 != val2:
+            add(base + ctrl, "OK", "control:distinct-fields-constrained-at-levels:%s" % kw2)
     add(["packet V0 { a: 8, b: 8, _payload_ }", "packet V1 : V0 (a = 1) { _payload_ }", "packet V2 : V1 (b = 1) { }"],
         "OK", "control:constraint-added-at-second-level")
 
